@@ -1,11 +1,12 @@
 (* C20 — GenerateRandomExpr reports the true value of the expression it generates.
    Statements about `generate`, the model of GenerateRandomExpr as a function of the raw random draws (every seed
    is some stream of draws; tied to the Go function by a scripted rand.Source on every run). Proofs: GenProofs.v.
-   PARTIAL: (a) proved for three-valued evaluation (which is ordinary evaluation when no DNE variable occurs, as far
-   as TryEval's meaning is concerned); that Eval itself returns the value, and that the printed text compiles, is
-   checked on the real code on every run; (b) at level 0 the generated text is a bare leaf that prefix Compile
-   rejects - a recorded finding (known_findings.json). *)
-Require Import Base Opcode Tables Ops Tree Opt Flat Run TryFacts Gen GenProofs EvalDefs EvalTop TryCorrect.
+   Both evaluation clauses are theorems: three-valued evaluation (TryEval) for every option set, ordinary evaluation
+   (Eval, under every optimisation configuration) when no DNE variable can be used. PARTIAL: (a) the theorems are
+   about the generated TREE; that the printed text compiles back to that tree is checked on the real code on every
+   run; (b) at level 0 the generated text is a bare leaf that prefix Compile rejects - a recorded finding
+   (known_findings.json). *)
+Require Import Base Opcode Tables Ops Tree Opt Flat Run TryFacts Gen GenProofs GenEval OptTotal EvalDefs EvalTop TryCorrect.
 Open Scope Z_scope.
 
 (* for every level, every stream of draws, both result types, every option combination and variable lists whose
@@ -33,6 +34,29 @@ Proof.
   unfold r. rewrite (generate_trysem c Hc isb level s). reflexivity.
 Qed.
 
+(* ordinary evaluation: when the generator cannot use a DNE variable (EnableTryEval off, or no DNE variable given),
+   strict evaluation of the generated expression - every operand of every operator, the taken branch of every `if` -
+   succeeds with the reported result, which is of the requested type (never DNE) *)
+Theorem C20_reported_is_strict : forall c, wf_cfg c -> g_try c && nonempty (g_dnes c) = false -> forall isb level s,
+  let r := generate c isb level s in
+  rok (gfetch c) no_custom (fst r) = Some (snd r) /\ typedE isb (snd r).
+Proof. exact generate_rok. Qed.
+(* hence Eval of the compiled generated expression returns the reported result, under every optimisation
+   configuration (any subset of the passes, any cost map) *)
+Theorem C20_reported_is_eval : forall c, wf_cfg c -> g_try c && nonempty (g_dnes c) = false -> forall cfg isb level s,
+  let r := generate c isb level s in
+  snd (eval (gfetch c) no_custom (compile (optimize no_custom cfg (fst r)))) = MVal (snd r).
+Proof.
+  intros c Hc Hn cfg isb level s r. rewrite run_compile_correct. unfold sem_obs. cbn [snd].
+  unfold r. rewrite (generate_sem c Hc Hn cfg isb level s). reflexivity.
+Qed.
+Theorem C20_reported_is_eval_plain : forall c, wf_cfg c -> g_try c && nonempty (g_dnes c) = false -> forall isb level s,
+  let r := generate c isb level s in snd (eval (gfetch c) no_custom (compile (fst r))) = MVal (snd r).
+Proof.
+  intros c Hc Hn isb level s r. rewrite run_compile_correct. unfold sem_obs. cbn [snd].
+  unfold r. rewrite (generate_sem_plain c Hc Hn isb level s). reflexivity.
+Qed.
+
 (* the generator's own operator evaluation is the Kleene combination whenever that is defined *)
 Theorem C20_exec_is_comb : forall op vals r,
   In op [ss "and"; ss "or"; ss "eq"; ss "not"; ss "+"; ss "-"; ss "*"; ss "/"; ss "%"] ->
@@ -50,5 +74,13 @@ Qed.
 Example C20_ex : snd (generate c0 true 3 [5; 3; 2; 7; 1; 4; 9; 1; 60; 2; 0; 8; 1; 30; 4; 2; 40; 6; 3; 1; 1; 0; 2; 7]) <> VNil.
 Proof. vm_compute. discriminate. Qed.
 
+Definition c1 : gencfg := {| g_var := true; g_cond := true; g_try := false;
+  g_nums := [(ss "n", VInt 3)]; g_bools := [(ss "b", VBool true)]; g_dnes := [(ss "d", VDNE)] |}.
+Example C20_ex_wf1 : wf_cfg c1 /\ g_try c1 && nonempty (g_dnes c1) = false.
+Proof. split; [exact C20_ex_wf|reflexivity]. Qed.
+Example C20_ex1 : exists b, snd (generate c1 true 3 [5; 3; 2; 7; 1; 4; 9; 1; 60; 2; 0; 8; 1; 30; 4; 2; 40; 6; 3; 1; 1; 0; 2; 7]) = VBool b.
+Proof. vm_compute. eexists. reflexivity. Qed.
+
 Print Assumptions C20_reported_is_kleene.
+Print Assumptions C20_reported_is_eval.
 Print Assumptions C20_reported_is_tryeval.
